@@ -102,6 +102,17 @@ BUILTIN_BASES: dict[str, str | None] = {
 
 GENERIC = "Exception"  # token: "some unknown subclass of Exception"
 
+# callables that never return normally: name (last component or dotted) -> exception token they leave with.
+# The loader adds every repo function annotated `-> NoReturn`.
+NO_RETURN: dict[str, str] = {
+    "reject": GENERIC,  # hypothesis.reject
+    "hypothesis.reject": GENERIC,
+    "sys.exit": "SystemExit",
+    "os._exit": "SystemExit",
+    "pytest.fail": GENERIC,
+    "pytest.skip": GENERIC,
+}
+
 
 def short(name: str) -> str:
     if name in BUILTIN_BASES:
@@ -353,7 +364,14 @@ class CFG:
             return n
         # simple statement
         n = self._new("stmt", s)
-        self._exc_edges(n, self._tokens(s), k)
+        toks = self._tokens(s)
+        if isinstance(s, ast.Expr) and isinstance(s.value, ast.Call):
+            d = dotted(s.value.func)
+            tok = NO_RETURN.get(d or "") or (NO_RETURN.get((d or "").rsplit(".", 1)[-1]) if d and (d.rsplit(".", 1)[-1].startswith("_") or "." not in d) else None)
+            if tok is not None:
+                self._exc_edges(n, dict.fromkeys([tok, *toks]), k)
+                return n
+        self._exc_edges(n, toks, k)
         self._edge(n, k.nxt, "next")
         return n
 
